@@ -78,6 +78,7 @@ def run(rep, tier):
     linestop(rep, c)
     gutter(rep, c)
     marker(rep, c)
+    colsub(rep)
 
 
 # ------------------------------------------------------------------ CHECKED
@@ -450,46 +451,79 @@ def pairpos(rep, c):
 
 def linestop(rep, c):
     r = rep.rule("C10.LINESTOP", 1,
-                 "the line iterator of a span starts at span.start and stops only when its cursor is strictly past "
-                 "span.end: a stop test that is also true for cursor == end yields nothing for an empty span (cursor == "
-                 "start == end on the first call), although the line containing the offset overlaps it")
-    fns = [b for b in c.bodies if b["name"] == "next" and b.get("impl_self") == "pest::span::LinesSpan"
-           and b.get("impl_trait") and b.get("body") is not None]
+                 "the line iterator of a span stops exactly when its cursor is past span.end, or equals span.end after "
+                 "at least one line was yielded (cursor > start): an empty span (cursor == start == end on the first "
+                 "call) yields the line containing its offset, and a line that merely starts where a non-empty span ends "
+                 "is not yielded.  Cursor, start and end are only compared, so the orderings are all the cases")
+    fns = [b for b in c.bodies if (b.get("impl_self") == "pest::span::LinesSpan") and b.get("body") is not None and not b.get("exp")]
     if not fns:
-        r.lost("Iterator::next for pest::span::LinesSpan")
+        r.lost("impl of pest::span::LinesSpan")
         return
-    fn = fns[0]
 
-    def is_end(e):
+    def atom(e):
         e = peel(e)
-        return kind(e) == "Field" and e["name"] == "end" and "Span" in e.get("bty", "")
+        if kind(e) == "Field" and e["name"] in ("start", "end") and "Span" in e.get("bty", "") and "LinesSpan" not in e.get("bty", ""):
+            return e["name"]
+        if kind(e) == "Field" and "LinesSpan" in e.get("bty", "") and e.get("ty") == "usize":
+            return "cursor"
+        return None
 
-    def is_cursor(e):
+    def ev(e, env):
         e = peel(e)
-        return kind(e) == "Field" and "LinesSpan" in e.get("bty", "") and e.get("ty") == "usize"
-    n = 0
-    for x in walk(fn["body"]):
-        if kind(x) != "If" or not hirq.diverges(x["then"]):
-            continue
-        cnd = peel(x["cond"])
-        if kind(cnd) != "Binary" or cnd["op"] not in ("<", "<=", ">", ">=", "=="):
-            continue
-        l, rr, op = cnd["l"], cnd["r"], cnd["op"]
-        if is_end(l) and is_cursor(rr):
-            l, rr = rr, l
-            op = {"<": ">", "<=": ">=", ">": "<", ">=": "<=", "==": "=="}[op]
-        if not (is_cursor(l) and is_end(rr)):
-            continue
-        n += 1
-        r.instance("stop:cursor%send" % op, where(cnd), hirq.expr_text(cnd)[:50])
-        if op in (">=", "=="):
-            r.violation("stop:cursor%send" % op, where(cnd),
-                        "LinesSpan::next stops when cursor %s span.end: for an empty span (start == end) the first call "
-                        "already stops, so lines()/lines_span() are empty and an error built from the span renders no "
-                        "line text, while line_of at the same offset returns the line" % op)
-    if n == 0:
-        r.note("no comparison of the cursor with span.end guards an early stop")
+        k = kind(e)
+        if k == "Binary" and e["op"] in ("&&", "||"):
+            a, b = ev(e["l"], env), ev(e["r"], env)
+            if a is None or b is None:
+                return None
+            return (a and b) if e["op"] == "&&" else (a or b)
+        if k == "Unary" and e["op"] == "!":
+            a = ev(e["e"], env)
+            return None if a is None else (not a)
+        if k == "Binary" and e["op"] in ("<", "<=", ">", ">=", "==", "!="):
+            a, b = atom(e["l"]), atom(e["r"])
+            if a is None or b is None:
+                return None
+            x, y = env[a], env[b]
+            return {"<": x < y, "<=": x <= y, ">": x > y, ">=": x >= y, "==": x == y, "!=": x != y}[e["op"]]
+        return None
+    conds = []
+    for fn in fns:
+        for x in walk(fn["body"]):
+            if kind(x) == "If" and hirq.diverges(x["then"]) and x.get("else") is None:
+                if ev(x["cond"], {"start": 0, "cursor": 0, "end": 0}) is not None:
+                    conds.append(x["cond"])
+            if kind(x) == "Match":
+                for arm in x["arms"]:
+                    g = arm.get("guard")
+                    if g is not None and ev(g, {"start": 0, "cursor": 0, "end": 0}) is not None and \
+                            any(str(v).endswith("None") for y in hirq.tail_leaves(arm["body"]) for v in [y.get("path", "")]):
+                        conds.append(g)
+    if not conds:
+        r.note("no comparison of the cursor with the span's bounds guards an early stop")
         r.floor = 0
+        return
+    cases = [(s, cu, e) for s in range(3) for cu in range(3) for e in range(3) if s <= e and s <= cu]
+    names = {(-1, -1): "<", (0, 0): "="}
+    for cnd in conds:
+        r.instance("stop:%s" % hirq.expr_text(cnd)[:60], where(cnd))
+    for (s, cu, e) in cases:
+        env = {"start": s, "cursor": cu, "end": e}
+        stop = any(ev(cnd, env) for cnd in conds)
+        want = cu > e or (cu == e and cu > s)
+        if stop != want:
+            desc = "cursor %s end, cursor %s start" % ("<" if cu < e else ("==" if cu == e else ">"), "==" if cu == s else ">")
+            key = "stop:" + desc.replace(" ", "")
+            if want:
+                r.violation(key, where(conds[0]),
+                            "LinesSpan does not stop when %s: the line that starts exactly where a non-empty span ends is "
+                            "yielded although the span does not cover it (\"ab\\ncd\"[0..3] gives two lines, and the error "
+                            "rendering shows `cd` as a continued line)" % desc)
+            else:
+                r.violation(key, where(conds[0]),
+                            "LinesSpan stops when %s: for an empty span (start == end) the first call already stops, so "
+                            "lines()/lines_span() are empty and an error built from the span renders no line text, while "
+                            "line_of at the same offset returns the line" % desc)
+            break
 
 
 # ------------------------------------------------------------------ GUTTER
@@ -635,3 +669,85 @@ def marker(rep, c):
                             "%s rewrites the marker's start column under a test that can hold when start <= end (it is "
                             "not a strict `start > end`): for a span whose end column equals its start column (an empty "
                             "span) the marker is moved left of the reported column" % b["name"])
+
+
+# ------------------------------------------------------------------ COLSUB
+
+def colsub(rep):
+    r = rep.rule("C10.COLSUB", 1,
+                 "wherever the two columns of a span location are subtracted, the function also compares them (or "
+                 "subtracts with saturating / checked arithmetic): the end column of a multi-line span can be smaller "
+                 "than its start column, and an unguarded `end - start` on usize overflows (a panic in builds with "
+                 "overflow checks) while drawing the marker or building a diagnostic label.  Feature configuration "
+                 "with every renderer compiled in (pretty-print, miette-error)")
+    c = facts.facts("pestall").crate("pest")
+    if c is None:
+        r.lost("pest facts (all features)")
+        return
+    LCL = "pest::error::LineColLocation"
+    n = 0
+    for b in c.bodies:
+        if b.get("body") is None or b.get("exp") or "::tests::" in b["path"] or "pest::error" not in b["path"]:
+            continue
+        # bindings of the two halves of a Span pattern
+        first, second = set(), set()
+        pats = []
+        for x in walk(b["body"]):
+            if kind(x) == "Match":
+                pats += [arm["pat"] for arm in x["arms"]]
+            elif isinstance(x.get("pat"), dict):
+                pats.append(x["pat"])
+        for q in pats:
+            if True:
+                for sub in walk(q):
+                    ps = sub.get("pats") or sub.get("subs")
+                    if isinstance(ps, list) and len(ps) == 2 and any(str(v).startswith(LCL + "::Span") for v in hirq.pat_variants(sub)):
+                        first |= set(bid for (bid, nm) in hirq.pat_bindings(ps[0]))
+                        second |= set(bid for (bid, nm) in hirq.pat_bindings(ps[1]))
+        if not second:
+            continue
+        lets = hirq.lets(b["body"])
+
+        def origin(e, depth=0):
+            """'first' / 'second' / 'start-fn' if e is (a local initialised from) a column of that half"""
+            e = peel(e)
+            lid = hirq.local_id(e)
+            if lid is None or depth > 3:
+                return None
+            if lid in first:
+                return "first"
+            if lid in second:
+                return "second"
+            if lid in lets and lets[lid][0] is not None:
+                init = peel(lets[lid][0])
+                if kind(init) == "Field" or kind(init) in ("Call", "MethodCall"):
+                    if any(kind(y) in ("Call", "MethodCall") and str(callee(y)).split("::")[-1] == "start" for y in walk(init)):
+                        return "first"
+                return origin(init, depth + 1)
+            return None
+        subs = []
+        for x in walk(b["body"]):
+            if kind(x) == "Binary" and x["op"] == "-":
+                a, bb = origin(x["l"]), origin(x["r"])
+                if a and bb and a != bb:
+                    subs.append(x)
+        if not subs:
+            continue
+        compared = False
+        for x in walk(b["body"]):
+            if kind(x) == "Binary" and x["op"] in ("<", "<=", ">", ">="):
+                a, bb = origin(x["l"]), origin(x["r"])
+                if a and bb and a != bb:
+                    compared = True
+        for x in subs:
+            n += 1
+            key = "%s:%s" % (b["path"].replace("pest::error::", ""), hirq.expr_text(x)[:30].replace(" ", ""))
+            r.instance(key, where(x), "compared in the same function: %s" % compared)
+            if not compared:
+                r.violation(key, where(x),
+                            "`%s` subtracts the columns of a span location without ever comparing them: for a span that "
+                            "ends on a later line in a smaller column (\"abcd\\nxy\" 3..6) the subtraction overflows" %
+                            hirq.expr_text(x)[:40])
+    if n == 0:
+        r.note("no subtraction between the two columns of a span location")
+        r.floor = 0
